@@ -1,6 +1,7 @@
 // Harness: runs the implementation (/repo, built with --cfg oq3_verif) on generated or given
 // cases and prints one canonical line per case: "<family>\t<input>\t<impl result>".
 // The extracted Coq model (extract/driver) reads these lines and reports disagreements.
+mod fam_lex;
 mod fam_symtab;
 mod fam_types;
 mod util;
@@ -15,6 +16,7 @@ fn main() {
     match args[1].as_str() {
         "types" => fam_types::run(rest),
         "symtab" => fam_symtab::run(rest),
+        "lex" => fam_lex::run(rest),
         f => {
             eprintln!("unknown family {f}");
             std::process::exit(2);
